@@ -21,6 +21,9 @@ func Clip(
 		return clipLineString(obj, clipper, opts)
 	case *geojson.Polygon:
 		return clipPolygon(obj, clipper, opts)
+	case *geojson.Circle:
+		// a clipped circle is no circle: clip the polygon it is tested as
+		return Clip(obj.Polygon(), clipper, opts)
 	case *geojson.Feature:
 		return clipFeature(obj, clipper, opts)
 	case geojson.Collection:
